@@ -60,7 +60,7 @@ def plant(rng, randoms, edges, frac=0.15):
 def make_case(rng, ref, k, sizes=None):
     H = int(rng.choice(sizes or [0, 1, 2, 17, 300, 1003, 5000]))
     P = int(rng.choice([0, 1, 50, 2000, 20000])) if H else 0
-    lbox = float(rng.choice([500.0, 2000.0]))
+    lbox = float(rng.choice([500.0, 2000.0, 333.0, 250.5]))  # half the box need not be an integer
     halo, part = hodref.gen_tables(rng, H, P, lbox=lbox, with_env=bool(k % 4))
     sub = SUBSETS[k % 7]
     tracers = hodref.gen_tracers(rng, sub, fancy=bool(k % 3))
